@@ -6,6 +6,8 @@
 //!                                                   (+ `!oracle …` lines for implementation-side oracles)
 mod probe;
 mod runner;
+mod sched;
+mod seqop;
 mod suites;
 mod util;
 
